@@ -19,6 +19,8 @@
      vrp-pragmatic/src/format/problem/problem_reader.rs :: map_to_problem_with_approx (approximated matrices first), map_to_problem
                                                  (validate before mapping), read_reserved_times_index (parse_time)
      vrp-core/src/models/problem/fleet.rs     :: Fleet::new (assert!(!vehicles.is_empty()))
+     fleet_reader.rs :: create_transport_costs, get_profile_index_map; vrp-core costs.rs :: create_matrix_transport_cost(_with_fallback),
+                                                 TimeAgnosticMatrixTransportCost::new (the E0002 conditions; run_transport)
 
    The document type is the reduction of format/problem/model.rs to the fields these functions look at; documents of this type
    have no relations, no objectives, no clustering, no recharges and only coordinate locations (every place its own coordinate),
@@ -382,7 +384,99 @@ Definition read (d : doc) : rres :=
   | VOk => if reader_panics d then RPanic else ROk
   end.
 
+(* ---------- fleet_reader.rs :: create_transport_costs on supplied routing matrices (+ vrp-core create_matrix_transport_cost) ----------
+   Every failure of this step is Err(E0002); as written it has no panicking access: `.get(i).ok_or_else(..)?`.
+   Timestamps and custom locations are not modelled (no timestamps: time agnostic costs). *)
+Record matrix := mkMatrix { m_profile : option string; m_travel : list Z; m_dist : list Z; m_errors : option (list Z) }.
+
+(* for (i, error) in error_codes.iter().enumerate(): error > 0 pushes -1/-1, otherwise travel_times.get(i)? / distances.get(i)? *)
+Fixpoint error_loop (i : nat) (ec tt dd : list Z) : option (list Z * list Z) :=
+  match ec with
+  | [] => Some ([], [])
+  | e :: r =>
+      let cell := if 0 <? e then Some (-1, -1)
+                  else match nth_error tt i, nth_error dd i with Some a, Some b => Some (a, b) | _, _ => None end in
+      match cell, error_loop (S i) r tt dd with
+      | Some (a, b), Some (x, y) => Some (a :: x, b :: y)
+      | _, _ => None
+      end
+  end.
+(* (durations, distances) of one matrix; None = Err("invalid matrix index: i") *)
+Definition matrix_data (m : matrix) : option (list Z * list Z) :=
+  match m_errors m with
+  | Some ec => error_loop 0 ec (m_travel m) (m_dist m)
+  | None => Some (m_travel m, m_dist m)
+  end.
+(* (len as Float).sqrt().round() as usize *)
+Definition round_sqrt (n : nat) : nat := let s := Nat.sqrt n in if (s <? n - s * s)%nat then S s else s.
+(* get_profile_index_map: distinct profile names in order of first occurrence *)
+Fixpoint dedup_from (seen l : list string) : list string :=
+  match l with
+  | [] => []
+  | x :: r => if mem x seen then dedup_from seen r else x :: dedup_from (x :: seen) r
+  end.
+Fixpoint index_of (x : string) (l : list string) : option nat :=
+  match l with
+  | [] => None
+  | y :: r => if String.eqb x y then Some 0%nat else option_map S (index_of x r)
+  end.
+Fixpoint sequence {A} (l : list (option A)) : option (list A) :=
+  match l with
+  | [] => Some []
+  | None :: _ => None
+  | Some x :: r => option_map (cons x) (sequence r)
+  end.
+Fixpoint count_distinct (l : list nat) : nat :=
+  match l with
+  | [] => 0%nat
+  | x :: r => if existsb (Nat.eqb x) r then count_distinct r else S (count_distinct r)
+  end.
+Fixpoint ninsert (x : nat) (l : list nat) : list nat :=
+  match l with [] => [x] | y :: r => if (x <=? y)%nat then x :: y :: r else y :: ninsert x r end.
+Fixpoint nsort (l : list nat) : list nat := match l with [] => [] | x :: r => ninsert x (nsort r) end.
+Fixpoint nat_list_eqb (a b : list nat) : bool :=
+  match a, b with
+  | [], [] => true
+  | x :: a', y :: b' => (x =? y)%nat && nat_list_eqb a' b'
+  | _, _ => false
+  end.
+
+Inductive tres := TOk (size : nat) (lens : list nat) | TErr.
+Definition create_transport_costs (profiles : list string) (ms : list matrix) : tres :=
+  let all_named := forallb (fun m => is_some (m_profile m)) ms in
+  let none_named := forallb (fun m => is_none (m_profile m)) ms in
+  if negb all_named && negb none_named then TErr                                   (* "all matrices should have profile set or none" *)
+  else
+    let names := dedup_from [] profiles in
+    if (List.length ms <? List.length names)%nat then TErr                         (* "not enough routing matrices" *)
+    else match sequence (map matrix_data ms) with
+         | None => TErr                                                            (* "invalid matrix index" *)
+         | Some datas =>
+             let idxs := map (fun im : nat * matrix =>
+                                match m_profile (snd im) with
+                                | Some p => match index_of p names with Some k => k | None => fst im end
+                                | None => fst im
+                                end) (combine (seq 0 (List.length ms)) ms) in
+             if negb (count_distinct idxs =? List.length names)%nat then TErr      (* "amount of fleet profiles does not match" *)
+             else match datas with
+                  | [] => TErr                                                     (* "no matrix data found" *)
+                  | d0 :: _ =>
+                      let size := round_sqrt (List.length (fst d0)) in
+                      if existsb (fun d : list Z * list Z => negb (List.length (snd d) =? List.length (fst d))%nat) datas then TErr
+                      else if existsb (fun d : list Z * list Z => negb (round_sqrt (List.length (snd d)) =? size)%nat) datas then TErr
+                      else if existsb (fun d : list Z * list Z => negb (round_sqrt (List.length (fst d)) =? size)%nat) datas then TErr
+                      else if negb (nat_list_eqb (nsort idxs) (seq 0 (List.length idxs))) then TErr   (* "duplicate profiles.." *)
+                      else TOk size (map (fun d : list Z * list Z => List.length (fst d)) datas)
+                  end
+         end.
+
 (* ---------- entry points for the correspondence (results as plain data) ---------- *)
+(* [1] = Err(E0002); 0 :: size :: lengths of the cost vectors = Ok *)
+Definition run_transport (profiles : list string) (ms : list matrix) : list Z :=
+  match create_transport_costs profiles ms with
+  | TErr => [1]
+  | TOk size lens => 0 :: Z.of_nat size :: map Z.of_nat lens
+  end.
 (* (kind, codes): kind 0 = Ok, 1 = Err codes, 2 = Panic *)
 Definition run_validate (d : doc) : Z * list Z :=
   match validate_approx d with VOk => (0, []) | VErr cs => (1, cs) | VPanic => (2, []) end.
